@@ -55,6 +55,7 @@ ModelAction(op) ==
     [] op[1] = "append-encode-fails" -> AppendEncodeFails
     [] op[1] = "flush" -> Flush
     [] op[1] = "extend" -> ExtendOk(op[2])
+    [] op[1] = "extend-bad" -> ExtendStopsAtBad(op[2])
     [] op[1] = "add-meta" -> AddUserMetadata(op[2])
     [] op[1] = "reset" -> Reset
     [] op[1] = "close" -> Close(op[2])
@@ -72,12 +73,13 @@ TrOp ==
             newApp == IF op[1] = "reset" THEN <<>>
                       ELSE IF isAppend /\ e.res = "ok" THEN Append(obsAppended, op[2])
                       ELSE IF isExtend /\ e.res = "ok" THEN obsAppended \o op[2]
+                      ELSE IF op[1] = "extend-bad" THEN obsAppended \o op[2]     \* the values before the bad one
                       ELSE obsAppended
             newMeta == IF op[1] = "reset" THEN {}
                        ELSE IF op[1] = "add-meta" /\ e.res = "ok" THEN obsMeta \cup {op[2]} ELSE obsMeta
             fail ==
               If(~e.panic, "C03:panic")
-              \cup If(~failing \/ e.res = "err", "TOOL:operation-meant-to-fail-succeeded")
+              \cup If(~(failing \/ op[1] = "extend-bad") \/ e.res = "err", "TOOL:operation-meant-to-fail-succeeded")
               \cup If(e.split_ok, "C03:sink-not-a-container-file")
               \cup If(~e.split_ok \/ IsPrefix(flat, newApp), "C03:blocks-not-a-prefix-of-appended-values")
               \cup If(~e.split_ok \/ ~failing \/ (e.res = "err" /\ flat = prevFlat), "C03:failed-append-left-a-trace")
